@@ -69,6 +69,33 @@ func VerifC32BeginDone() {
 	sym.Reached("end")
 }
 
+// An independent reader next to two committers: two successive reads of the
+// mark never go backwards (a regression of the mark inside tryAdvance is only
+// visible to somebody who reads between two steps of another thread).
+func VerifC32ReaderMonotone() {
+	g := &c32Ghost{w: &WaterMark{Name: "verif"}}
+	g.w.Init(nil)
+	for t := 0; t < 2; t++ {
+		sym.Go(func() {
+			g.alloc.Lock()
+			g.next++
+			x := g.next
+			g.w.Begin(uint64(x))
+			g.alloc.Unlock()
+			g.w.Done(uint64(x))
+		})
+	}
+	sym.Go(func() {
+		d1 := g.w.DoneUntil()
+		sym.Yield()
+		d2 := g.w.DoneUntil()
+		sym.Assert(d2 >= d1, "done-until-never-decreases")
+	})
+	sym.Wait()
+	sym.Assert(g.w.DoneUntil() == g.w.LastIndex(), "mark-reaches-last-index-when-all-done")
+	sym.Reached("end")
+}
+
 // Begins in arbitrary (non-monotone) order: the mark still never decreases and
 // ends at the last index. (An index begun below an already published higher
 // index may be passed while its Begin is in progress: for such late Begins only
